@@ -46,8 +46,8 @@ let cerr_fields = function
   | EParse (f, m) -> [str "parse"; hx f; hx m]
   | EAdd (f, e) -> add_err_fields f e
   | ECheck (t, e) -> check_err_fields t e
-  | EGlobal (t, GUndefined n) -> [str "global:undefined"; hx t; hx n]
-  | EGlobal (t, GOutOfFuel) -> [str "global:fuel"; hx t]
+  | EGlobalErr (t, GUndefined n) -> [str "global:undefined"; hx t; hx n]
+  | EGlobalErr (t, GOutOfFuel) -> [str "global:fuel"; hx t]
 
 let js_err_s = function
   | JUnknownDirective n -> "unknown-directive:" ^ string_of_bstr n
